@@ -269,4 +269,24 @@ def matcherDocForm (name : String) (v : Bytes) : Option Bool :=
       (r < 128 && paragraphPunct.contains r.toUInt8))
   | _ => none
 
+/-! ### C17: rules accumulate -/
+
+/-- every attribute of `a` is on `b` with the same value (the style attribute is governed by
+    style rules and is only required to be compared by those, C10: ignored here) -/
+def attrsSub (a b : List Attr) : Bool :=
+  a.all fun x => x.key == b!"style" || b.any fun y => y.key == x.key && y.val == x.val
+
+/-- the tags of the first token list embed, in order, into the tags of the second, each with at
+    least its attributes -/
+def tagsEmbed : List Token → List Token → Bool
+  | [], _ => true
+  | _ :: _, [] => false
+  | x :: xs, y :: ys =>
+    if x.tt == y.tt && x.data == y.data && attrsSub x.attrs y.attrs then tagsEmbed xs ys
+    else tagsEmbed (x :: xs) ys
+
+/-- what the policy with fewer rules keeps, the policy with one more rule keeps too -/
+def oracleMono (outA outB : Bytes) : Bool :=
+  tagsEmbed ((tokenize outA).filter isTag) ((tokenize outB).filter isTag)
+
 end BM.Spec
